@@ -685,24 +685,40 @@ impl CompositionGraph {
         })?;
 
         // Add dependency edges to any existing defined types that reference this one
-        for (other_ty, other) in &self.defined {
-            other_ty.visit_defined_types(&self.types, &mut |_, id| {
-                let dep_ty = Type::Value(ValueType::Defined(id));
-                if dep_ty == ty
-                    && !self
-                        .graph
-                        .edges_connecting(index, *other)
-                        .any(|e| matches!(e.weight(), Edge::Dependency))
-                {
-                    log::debug!(
-                        "adding dependency edge from type `{name}` (dependency) to type `{to}` (dependent)",
-                        to = self.graph[index].export.as_ref().unwrap(),
-                    );
-                    self.graph.add_edge(index, *other, Edge::Dependency);
-                }
+        // (walking the nodes in index order, so that the order of the added edges does
+        // not depend on the iteration order of the `defined` hash map)
+        let mut dependents = Vec::new();
+        for other in self.graph.node_indices() {
+            let node = &self.graph[other];
+            if other == index || !matches!(node.kind, NodeKind::Definition) {
+                continue;
+            }
 
-                Ok(())
-            })?;
+            let mut references = false;
+            node.item_kind
+                .ty()
+                .visit_defined_types(&self.types, &mut |_, id| {
+                    references |= Type::Value(ValueType::Defined(id)) == ty;
+                    Ok(())
+                })?;
+
+            if references {
+                dependents.push(other);
+            }
+        }
+
+        for other in dependents {
+            if !self
+                .graph
+                .edges_connecting(index, other)
+                .any(|e| matches!(e.weight(), Edge::Dependency))
+            {
+                log::debug!(
+                    "adding dependency edge from type `{name}` (dependency) to type `{to}` (dependent)",
+                    to = self.graph[other].export.as_ref().unwrap(),
+                );
+                self.graph.add_edge(index, other, Edge::Dependency);
+            }
         }
 
         self.defined.insert(ty, index);
